@@ -603,7 +603,65 @@ func (c *Check) closeFacts(fs FactSet) FactSet {
 			}
 		}
 	}
+	expandDisjunctions(out)
 	return out
+}
+
+// expandDisjunctions: a fact (D1 ∨ … ∨ Dn) whose disjuncts are conjunctions — what a callee with several returning paths
+// has established, one disjunct per path — yields every conjunct that all its feasible disjuncts share (a disjunct with a
+// conjunct that the other facts refute, like ¬true for a mode flag passed as a constant, is not feasible).
+func expandDisjunctions(fs FactSet) {
+	conj := func(t *Term) []*Term {
+		if t.Op == "&&" {
+			return t.A
+		}
+		return []*Term{t}
+	}
+	var add []Fact
+	for _, f := range fs {
+		if f.Neg || f.T.Op != "||" || len(f.T.A) < 2 {
+			continue
+		}
+		var common map[string]Fact
+		for _, d := range f.T.A {
+			cs := conj(d)
+			feasible := true
+			cur := map[string]Fact{}
+			for _, ct := range cs {
+				cf := normFact(Fact{T: ct})
+				if isConstTerm(cf.T) {
+					if cf.T.IsAt("#true") == cf.Neg {
+						feasible = false
+					}
+					continue
+				}
+				if decideFact(cf, fs) == 0 || fs.Holds(cf.T, cf.Neg) {
+					feasible = false
+				}
+				cur[cf.String()] = cf
+			}
+			if !feasible {
+				continue
+			}
+			if common == nil {
+				common = cur
+				continue
+			}
+			for k := range common {
+				if _, ok := cur[k]; !ok {
+					delete(common, k)
+				}
+			}
+		}
+		for _, cf := range common {
+			if !fs.Has(cf) {
+				add = append(add, cf)
+			}
+		}
+	}
+	for _, cf := range add {
+		fs.Add(cf)
+	}
 }
 
 // argMap maps callee parameter atoms to the argument terms of a call term
